@@ -1,0 +1,27 @@
+//go:build verif
+
+package erasurecoding
+
+import (
+	"context"
+	"sync/atomic"
+
+	"github.com/jdillenkofer/pithos/internal/storage/metadatapart/partstore"
+)
+
+// The declarations in this file exist only in builds with the "verif" tag.
+// They change no behaviour.
+
+// VerifHealScanOnce runs one pass of the background heal scan (healScanOnce)
+// synchronously on ps, so that the external verification harness can observe
+// the shard stores after a completed pass instead of waiting for the scan
+// timer. It reports false when ps is not an erasure-coding part store.
+func VerifHealScanOnce(ctx context.Context, ps partstore.PartStore) bool {
+	e, ok := ps.(*erasureCodingPartStore)
+	if !ok {
+		return false
+	}
+	var cancelTask atomic.Bool
+	e.healScanOnce(ctx, &cancelTask)
+	return true
+}
